@@ -62,6 +62,20 @@ CHECKS = [
         "text": "Decides: keys come from one sorted() definition feeding both modes, blocks in declaration order, products via itertools.product in that order, source fastest inside a combinatorial block; each duplicate / missing-column / length-mismatch guard raises the configuration error and dominates what it protects; the neutral [{}] stands in only for an absent side; every statement that materialises something of product size is dominated by a `size > spec.max_runs` test on a size computed from len()s, raising the max-runs error with its payload; only the two documented exception classes are raised. Four sites where a block is materialised before any cap test are recorded as known finding F-C08 (genuine defect, not repaired).",
         "note": "Assumes itertools.product's enumeration order and file-order parsing. File contents / coercion values and measured memory are not decided.",
     },
+    {
+        "property_id": "C07",
+        "design_ref": "DESIGN.md section 3, C07",
+        "technique": "static analysis: taint from clock reads to Z-labelled timestamp sinks, sibling agreement of the SER provenance reconstruction with the run-time precedence chain, polarity/def-use of the built-in checks, set-difference direction of the delta, one-producer rule for digests",
+        "text": "Decides: every Z-labelled time string is produced from a UTC-anchored clock read and SER timing / lifecycle timestamps come from those producers; parameter provenance is labelled node, then context over all processing parameter names present in the pre-node snapshot, then the processor's declared default, later steps never overwriting earlier ones; checks report PASS exactly when their condition holds and are fed the right snapshot/data/type; created = post - pre, updated = changed common keys (sorted), pre snapshot before and post snapshot after the node, snapshots are copies; data/context digests come from one helper applied to the value of that call and are never copied between entries; durations are end - start; processor.ref is the class of the processor object of the node that ran.",
+        "note": "Assumes UTC clock primitives are truthful and serialisation is content-determined for framework types. Parameter values for arbitrary processors and wall-clock steps are not decided.",
+    },
+    {
+        "property_id": "C10",
+        "design_ref": "DESIGN.md section 3, C10",
+        "technique": "static analysis: effect analysis of trace-only regions (rebinding / mutation sites on run state), interprocedural exception-containment of hooks on live objects, consumption rule for one-shot iterables, JSON-safety of uncontained serialisation sinks, accumulating-state scan, guard dominance of driver calls, ownership analysis of the canonical spec",
+        "text": "Decides the structural sources of traced/untraced divergence and of non-volatile trace differences: trace-only blocks of execute neither rebind nor mutate data/context/payload/nodes and trace helpers do not mutate their live arguments; every hand-over of a live object to overridable code in the trace path is contained by a try (directly or at all callers) and no trace code consumes an object not known to be re-iterable; uncontained serialisation sinks in SER construction receive only the sanitised preprocessor metadata whose leaves are JSON-safe; orchestrators keep no accumulating instance/module state feeding records; every driver call is dominated by a presence test; the caller-owned canonical spec is never mutated.",
+        "note": "Payload classes with side-effecting hooks are outside static reach (the framework does not cause the difference). assertions.environment is classified as environment. Byte equality of traces is not decided.",
+    },
 ]
 _TODO = "check not built yet in this session (planned: DESIGN.md section 3); not claimed until its rules run clean and fire on their variants"
 NOT_APPLICABLE = [
